@@ -315,7 +315,8 @@ def gen_history(rng):
     belongs to molecules built whole and short; bonds are withheld, added, deleted, atoms sliced away, a small molecule
     stacked on -- every intermediate bond graph is a subgraph of it, so its molecules are short as well."""
     kind = rng.choice(["cubic", "ortho", "tric", "tric"])
-    sysd = gen_system(rng, kind, 1)
+    nf = rng.choice([1, 2, 3, 4, 5])
+    sysd = gen_system(rng, kind, nf)
     n = len(sysd["frames"][0]["xyz"])
     full = [list(b) for b in sysd["bonds"]]
     alive = list(range(n))                      # current index -> original atom id
@@ -328,10 +329,13 @@ def gen_history(rng):
     def reimage():
         return {"op": rng.choice(["whole", "image"]), "inplace": rng.random() < 0.5, "make_whole": rng.random() < 0.8,
                 "adopt": rng.random() < 0.5}
-    ops.append(reimage())
+    if rng.random() < 0.5:
+        ops.append(reimage())
     stacked = False
     for _ in range(rng.randint(2, 6)):
-        choices = ["copy_top"]
+        choices = ["copy_top", "set_xyz"]
+        if nf >= 2:
+            choices += ["slice"] * 3
         addable = [b for b in pending if b[0] in alive and b[1] in alive]
         if addable:
             choices += ["add_bond"] * 4
@@ -353,6 +357,22 @@ def gen_history(rng):
             ops.append({"op": "del_bond", "k": k})
         elif ch == "copy_top":
             ops.append({"op": "copy_top"})
+        elif ch == "set_xyz":
+            ops.append({"op": "set_xyz", "how": rng.choice(["fortran", "float64", "strided"])})
+        elif ch == "slice":
+            # frames through slice(copy=...): steps != 1, reversed, offsets -- at least one frame left
+            for _try in range(20):
+                step = rng.choice([2, 2, 3, -1, -2, 1])
+                start = rng.choice([None, 0, 1]) if step > 0 else rng.choice([None, nf - 1])
+                stop = rng.choice([None, nf, nf - 1]) if step > 0 else None
+                left = len(range(nf)[slice(start, stop, step)])
+                if left >= 1:
+                    break
+            else:
+                start, stop, step, left = None, None, 1, nf
+            nf = left
+            ops.append({"op": "slice", "start": start, "stop": stop, "step": step, "copy": rng.random() < 0.35})
+            ops.append(dict(reimage(), inplace=rng.random() < 0.7))
         elif ch == "atom_slice":
             keep = sorted(rng.sample(range(len(alive)), rng.randint(2, len(alive) - 1)))
             alive = [alive[k] for k in keep]
@@ -378,7 +398,7 @@ def expand_history(c, o):
     """one pseudo case/out per re-imaging step of a history (the step's own coordinates and bonds at that moment)"""
     pcs, pos = [], []
     for si, st in enumerate(o.get("steps") or []):
-        pc = {"frames": [{"xyz_f": st["before"], "cell": c["frames"][0]["cell"]}], "bonds": st["bonds_now"], "api": st["op"],
+        pc = {"frames": [{"xyz_f": b} for b in st["before"]], "bonds": st["bonds_now"], "api": st["op"],
               "inplace": st["inplace"], "make_whole": st["make_whole"], "anchors": [], "others": [], "sorted_bonds": None,
               "kind": c["kind"], "numbering": "history", "shapes": c["shapes"], "sizes": [st["n_atoms"]],
               "_origin": c, "_step": si}
@@ -709,7 +729,7 @@ FIXED_PROBES = [
 def correspond(ctx):
     quick = ctx.tier == "quick"
     cases = [dict(c) for c in FIXED_PROBES] + [gen_case(ctx.rng) for _ in range(1000 if quick else 11000)]
-    cases += [gen_history(ctx.rng) for _ in range(150 if quick else 1500)]
+    cases += [gen_history(ctx.rng) for _ in range(120 if quick else 1200)]
     ctx.log("systems:", len(cases))
     run_cases(ctx, cases)
 
